@@ -391,6 +391,22 @@ static void do_S(char *line)
     free(e);
 }
 
+/* T : walk the exported tld_list[] until the NULL row */
+static void do_T(void)
+{
+    const tld_t *t;
+    int first = 1;
+    putchar('[');
+    for (t = tld_list; t->domain != NULL; t++) {
+        if (!first) putchar(',');
+        first = 0;
+        putchar('[');
+        put_hex(stdout, t->domain, strlen(t->domain));
+        printf(",%lu,%d]", (unsigned long)t->length, t->type);
+    }
+    printf("]\n");
+}
+
 /* I : table of the IDN library's message for every code in [-400, 10] (ground truth for C15/C19) */
 static void do_I(void)
 {
@@ -432,6 +448,7 @@ int main(void)
 #endif
         case 'S': do_S(line); break;
         case 'I': do_I(); break;
+        case 'T': do_T(); break;
         case 'Q': goto out;
         default: printf("null\n");
         }
